@@ -41,7 +41,7 @@ EXPECT = {"determinate": "STABLE", "indeterminate": "MULTIPLE_STABLE", "no_stabl
 
 def build(spec):
     with contextlib.redirect_stdout(io.StringIO()):
-        m = ir.Simultaneous.from_string(spec.source(), linear=not spec.log, flat=True)
+        m = ir.Simultaneous.from_string(spec.source(), linear=not spec.log, flat=spec.flat)
         m.assign(**spec.param_values())
         m.steady()
         m.solve()
